@@ -14,6 +14,7 @@ import (
 // equal. Free variables are resolved to the cell of the enclosing function.
 func canonVal(v ssa.Value) ssa.Value {
 	for i := 0; i < 4; i++ {
+		v = core.SuccessValue(v)
 		u, ok := v.(*ssa.UnOp)
 		if !ok || u.Op != token.MUL {
 			return v
